@@ -2,6 +2,7 @@ package an
 
 import (
 	"fmt"
+	"go/token"
 	"go/types"
 	"sort"
 	"strings"
@@ -505,25 +506,70 @@ func wsRules(p *Prog, r *Report, R string) {
 	if sh.OK() {
 		up := sh.Ev("call", "websocket.(*Upgrader).Upgrade")
 		okm := false
-		for _, b := range sh.fn.Blocks {
-			for _, in := range b.Instrs {
-				if bo, ok := in.(*ssa.BinOp); ok && strings.Contains(Desc(bo), `(recv.proto.SelfName + ".sp.nanomsg.org")`) {
-					okm = true
+		// the function that does the matching: ServeHTTP itself, or a private predicate it calls
+		// (`if !l.offersOurProtocol(r) { refuse }`) whose result decides the upgrade
+		matchFn := sh.fn
+		hasCmp := func(fn *ssa.Function, recvDesc string) bool {
+			found := false
+			EachInstr(fn, func(in ssa.Instruction) {
+				if bo, ok := in.(*ssa.BinOp); ok && strings.Contains(Desc(bo), `.proto.SelfName + ".sp.nanomsg.org")`) {
+					found = true
 				}
-			}
+			})
+			return found
+		}
+		var helperCall *ssa.Call
+		if hasCmp(sh.fn, "") {
+			okm = true
+		} else {
+			EachInstr(sh.fn, func(in ssa.Instruction) {
+				call, ok := in.(*ssa.Call)
+				if !ok {
+					return
+				}
+				sc := call.Call.StaticCallee()
+				if sc == nil || sc.Blocks == nil || !p.moduleFunc(sc) || sc.Pkg != sh.fn.Pkg || !isBoolType(call.Type()) {
+					return
+				}
+				if hasCmp(sc, "") {
+					okm = true
+					matchFn = sc
+					helperCall = call
+				}
+			})
 		}
 		// the "some offered sub-protocol matched" flag only ever goes from false to true
 		// (the flag is the boolean local the upgrade is conditional on, whatever its name)
 		flag := ""
-		if len(up) == 1 {
+		if len(up) == 1 && helperCall == nil {
 			for _, a := range up[0].Guard {
 				if localTok.FindString(a) == a && strings.HasPrefix(a, "φ") {
 					flag = a
 				}
 			}
 		}
+		helperGuards := false
+		if helperCall != nil && len(up) == 1 {
+			// the upgrade is conditional on the predicate's result ...
+			for _, at := range p.GuardsOf(up[0].In.Block()) {
+				if at.Cond == ssa.Value(helperCall) && at.Pol {
+					helperGuards = true
+				}
+				if u, ok := at.Cond.(*ssa.UnOp); ok && u.Op == token.NOT && u.X == ssa.Value(helperCall) && !at.Pol {
+					helperGuards = true
+				}
+			}
+			// ... and the flag is what the predicate returns
+			EachInstr(matchFn, func(in ssa.Instruction) {
+				if ret, ok := in.(*ssa.Return); ok && len(ret.Results) == 1 {
+					if ph, ok := resolveSpill(ret.Results[0], ret).(*ssa.Phi); ok {
+						flag = Desc(ph)
+					}
+				}
+			})
+		}
 		mono, nphi := true, 0
-		EachInstr(sh.fn, func(in ssa.Instruction) {
+		EachInstr(matchFn, func(in ssa.Instruction) {
 			ph, ok := in.(*ssa.Phi)
 			if !ok || flag == "" || Desc(ph) != flag {
 				return
@@ -546,7 +592,7 @@ func wsRules(p *Prog, r *Report, R string) {
 		he := sh.Ev("call", "http.Error")
 		okOrder := len(up) == 1 && len(he) >= 1
 		if okOrder {
-			okOrder = flag != "" && hasAtom(up[0].Guard, flag)
+			okOrder = flag != "" && (hasAtom(up[0].Guard, flag) || helperGuards)
 		}
 		r.Check(okOrder, R, "ws/mismatch-before-upgrade", up.Pos(p), "a mismatching peer is refused before the upgrade", "the upgrade happens without a matching sub-protocol")
 	}
